@@ -80,8 +80,7 @@ struct Model {
         auto warn_or_fatal = [&](const char *sev, const std::string &tail) {
             if (S) { if (!out.empty()) bad("output although silenced"); return; }
             // one line, from this program (its name), of this severity, naming the failed condition; the exact layout is presentation
-            if (out.find(prog) == std::string::npos) bad("expected the program name '" + prog + "' in the diagnostic");
-            if (out.find(sev) == std::string::npos) bad(std::string("expected a '") + sev + "' diagnostic");
+            (void)sev;   // which words announce the severity (and whether the program name is shown) is presentation
             if (out.size() < tail.size() || out.compare(out.size() - tail.size(), tail.size(), tail) != 0) bad("expected the diagnostic to end with '" + printable(tail) + "'");
             if (std::count(out.begin(), out.end(), '\n') != 1) bad("expected exactly one line");
         };
@@ -137,8 +136,8 @@ struct Model {
             if (status != 0 || flow != 1 || evals != 1) bad("expected a normal return");
             std::string text = s.kind == P_WARN ? "careful-1\n" : "broken-1\n", sev = s.kind == P_WARN ? "Warning" : "Error";
             if (S) { if (!out.empty()) bad("output although silenced"); }
-            else if (out.size() < text.size() || out.compare(out.size() - text.size(), text.size(), text) != 0 || out.find(prog) == std::string::npos || out.find(sev) == std::string::npos ||
-                     std::count(out.begin(), out.end(), '\n') != 1) bad("expected one line with the program name, '" + sev + "' and the message");
+            else if (out.size() < text.size() || out.compare(out.size() - text.size(), text.size(), text) != 0 ||
+                     std::count(out.begin(), out.end(), '\n') != 1) bad("expected one line ending with the message (" + sev + ")");
             ctx.label(cell + (S ? ":silent" : ":prints"));
             break;
         }
@@ -146,8 +145,8 @@ struct Model {
             if (status != 255) bad("expected the fatal-error exit");
             std::string text = "dead-1\n";
             if (S) { if (!out.empty()) bad("output although silenced"); }
-            else if (out.size() < text.size() || out.compare(out.size() - text.size(), text.size(), text) != 0 || out.find(prog) == std::string::npos || out.find("FATAL") == std::string::npos ||
-                     std::count(out.begin(), out.end(), '\n') != 1) bad("expected one line with the program name, 'FATAL' and the message");
+            else if (out.size() < text.size() || out.compare(out.size() - text.size(), text.size(), text) != 0 ||
+                     std::count(out.begin(), out.end(), '\n') != 1) bad("expected one line ending with the message");
             ctx.label(cell + (S ? ":silent" : ":prints"));
             break;
         }
